@@ -30,10 +30,12 @@ QueriesQ == {Cx("q", <<Z>>), Cx("p", <<Z>>), Cx("n", <<Z>>), Cx("q", <<c>>), Cx(
 Nx == [mode |-> "next", fire |-> 0]
 Sv(k) == [mode |-> "solve", fire |-> k]
 Al(k) == [mode |-> "all", fire |-> k]
+Ss == [mode |-> "ssolve", fire |-> 0]      \* stop_query(), then solve()
+Sa == [mode |-> "sall", fire |-> 0]        \* stop_query(), then solve_all()
 CallLists == { <<Nx, Nx, Nx, Nx>>, <<Sv(0), Sv(0), Sv(0)>>, <<Al(0)>>, <<Al(0), Al(0), Nx>>, <<Nx, Al(0), Sv(0)>>,
                <<Sv(1)>>, <<Sv(2)>>, <<Sv(3), Nx>>, <<Al(1)>>, <<Al(2)>>, <<Al(3)>>, <<Al(5)>>, <<Nx, Sv(1), Sv(0)>>,
-               <<Sv(0), Al(2)>> }
-CallListsQ == { <<Nx, Nx, Nx, Nx>>, <<Sv(0), Sv(0), Sv(0)>>, <<Al(0), Nx>>, <<Sv(1)>>, <<Sv(2)>>, <<Al(2)>>, <<Al(3)>>, <<Nx, Sv(1), Sv(0)>> }
+               <<Sv(0), Al(2)>>, <<Sv(0), Ss, Ss, Ss>>, <<Nx, Ss, Nx, Nx>>, <<Sa>>, <<Sv(0), Sa>> }
+CallListsQ == { <<Nx, Nx, Nx, Nx>>, <<Sv(0), Sv(0), Sv(0)>>, <<Sv(0), Ss, Ss>>, <<Al(0), Nx>>, <<Sv(1)>>, <<Sv(2)>>, <<Al(2)>>, <<Al(3)>>, <<Nx, Sv(1), Sv(0)>> }
 Episodes  == {[query |-> qq, calls |-> cl] : qq \in Queries, cl \in CallLists}
 EpisodesQ == {[query |-> qq, calls |-> cl] : qq \in QueriesQ, cl \in CallListsQ}
 (* a query for a predicate WITHOUT clauses (nothing is fetched after its construction), then any query *)
